@@ -102,8 +102,11 @@ Definition run_was_valid_at (args : list bytes) : bytes :=
 Definition prop_was_valid_at (args : list bytes) : bytes :=
   match args with
   | [now; e; v; a; st; impl] =>
-      let want := valid_at_spec (negb (zarg st =? 0)) (zarg now) (zarg e) (zarg v) (zarg a) in
-      if bytes_eqb impl (tf want) then bs "ok" else bs "FAIL want=" ++ tf want
+      let want := valid_at_unsigned (negb (zarg st =? 0)) (zarg now) (zarg e) (zarg v) (zarg a) in
+      let wrapped := valid_at_spec (negb (zarg st =? 0)) (zarg now) (zarg e) (zarg v) (zarg a) in
+      if bytes_eqb impl (tf want) then bs "ok"
+      else if bytes_eqb impl (tf wrapped) then bs "FAIL-F62 timestamp of 2^63 or more read as negative; want=" ++ tf want
+      else bs "FAIL want=" ++ tf want
   | _ => bs "badargs"
   end.
 
@@ -141,8 +144,11 @@ Definition scen_of (cfg : json) : scen :=
      s_sig := sig_table cfg; s_db := script_of (bs "ferr") d; s_serr := gb (bs "serr") d;
      s_fetchers := map (script_of (bs "err")) (ga (bs "fetchers") cfg) |}.
 
-Definition rec_valid (sc : scen) (r : pkres) (atts : Z) (strict : bool) : bool :=
-  valid_at_spec strict (s_now sc) (pk_expired r) (pk_valid_until r) atts.
+(* wrap = false: the rule on the unsigned millisecond values (the property text);
+   wrap = true: the rule as the library computes it through int64 (finding F62) *)
+Definition rec_valid (wrap : bool) (sc : scen) (r : pkres) (atts : Z) (strict : bool) : bool :=
+  if wrap then valid_at_spec strict (s_now sc) (pk_expired r) (pk_valid_until r) atts
+  else valid_at_unsigned strict (s_now sc) (pk_expired r) (pk_valid_until r) atts.
 
 Definition is_supported (kid : bytes) : bool := is_prefix (bs "ed25519:") kid.
 
@@ -164,17 +170,17 @@ Definition supplied (sc : scen) (sk : skey) : option pkres :=
   | None => first_fetcher sc sk
   end.
 
-Definition sound_at (sc : scen) (i : Z) (server : bytes) (atts : Z) (strict : bool) : bool :=
+Definition sound_at (wrap : bool) (sc : scen) (i : Z) (server : bytes) (atts : Z) (strict : bool) : bool :=
   existsb (fun e => match e with (j, kid, key) =>
              (j =? i) && is_supported kid
-             && existsb (fun r => bytes_eqb (pk_key r) key && rec_valid sc r atts strict)
+             && existsb (fun r => bytes_eqb (pk_key r) key && rec_valid wrap sc r atts strict)
                         (sources sc (server, kid)) end) (s_sig sc).
 
-Definition must_ok_at (sc : scen) (i : Z) (server : bytes) (atts : Z) (strict : bool) : bool :=
+Definition must_ok_at (wrap : bool) (sc : scen) (i : Z) (server : bytes) (atts : Z) (strict : bool) : bool :=
   existsb (fun e => match e with (j, kid, key) =>
              (j =? i) && is_supported kid
              && match supplied sc (server, kid) with
-                | Some r => bytes_eqb (pk_key r) key && rec_valid sc r atts strict
+                | Some r => bytes_eqb (pk_key r) key && rec_valid wrap sc r atts strict
                 | None => false
                 end end) (s_sig sc).
 
@@ -192,7 +198,7 @@ Definition pkres_eqb (a b : pkres) : bool :=
 
 Definition first_fail {A} (f : A -> bool) (l : list A) : option A := find (fun x => negb (f x)) l.
 
-Definition prop_verify_jsons (args : list bytes) : bytes :=
+Definition prop_verify_jsons_core (args : list bytes) : bytes :=
   match rev args with
   | obsb :: rest =>
       match rev rest with
@@ -209,11 +215,11 @@ Definition prop_verify_jsons (args : list bytes) : bytes :=
               else
                 let rows := combine (s_reqs sc) R in
                 match first_fail (fun row => match row with ((i, (s, a, st)), c) =>
-                                    negb (c =? 49)%N || sound_at sc i s a st end) rows with
+                                    negb (c =? 49)%N || sound_at false sc i s a st || sound_at true sc i s a st end) rows with
                 | Some ((i, _), _) => bs "FAIL sound " ++ print_int i
                 | None =>
                 match first_fail (fun row => match row with ((i, (s, a, st)), c) =>
-                                    negb (must_ok_at sc i s a st) || (c =? 49)%N end) rows with
+                                    negb (must_ok_at false sc i s a st && must_ok_at true sc i s a st) || (c =? 49)%N end) rows with
                 | Some ((i, _), _) => bs "FAIL complete " ++ print_int i
                 | None =>
                 let asked_all := flat_map (fun c => match c with JArr [_; JArr l] => map asked_entry l | _ => [] end) F in
@@ -244,6 +250,41 @@ Definition prop_verify_jsons (args : list bytes) : bytes :=
       end
   | [] => bs "badargs"
   end.
+
+(* finding F62: rows whose verdict is right only under the int64 reading of a timestamp *)
+Definition prop_verify_jsons_f62 (args : list bytes) : option Z :=
+  match rev args with
+  | obsb :: rest =>
+      match rev rest with
+      | cfgb :: _ =>
+          match parse_json cfgb, parse_json obsb with
+          | Some cfg, Some obs =>
+              let sc := scen_of cfg in
+              let R := gs (bs "R") obs in
+              if negb (bytes_eqb R (bs "E")) && Nat.eqb (length R) (length (s_reqs sc)) then
+                match find (fun row => match row with ((i, (s, a, st)), c) =>
+                              ((c =? 49)%N && negb (sound_at false sc i s a st))
+                              || (must_ok_at false sc i s a st && negb (c =? 49)%N) end)
+                           (combine (s_reqs sc) R) with
+                | Some ((i, _), _) => Some i
+                | None => None
+                end
+              else None
+          | _, _ => None
+          end
+      | [] => None
+      end
+  | [] => None
+  end.
+
+Definition prop_verify_jsons (args : list bytes) : bytes :=
+  let r := prop_verify_jsons_core args in
+  if bytes_eqb r (bs "ok") then
+    match prop_verify_jsons_f62 args with
+    | Some i => bs "FAIL-F62 timestamp of 2^63 or more read as negative, request " ++ print_int i
+    | None => bs "ok"
+    end
+  else r.
 
 (* ================= CheckKeys and the two library fetchers =================
    documents: args = [scenario; raw doc 0; raw doc 1; ...]; scenario member docs = array of objects
